@@ -14,6 +14,7 @@ from __future__ import annotations
 
 import ast
 import itertools
+import itertools
 from dataclasses import dataclass, field
 from typing import Any, Callable
 
@@ -29,6 +30,9 @@ str_of = z3.Function('py_str_value', Ref, Str)            # value of a Python st
 str_obj = z3.Function('py_str_object', Str, Ref)
 truthy = z3.Function('py_bool', Ref, Bool)                # bool(obj) for opaque objects
 is_class = z3.Function('inspect_isclass', Ref, Bool)
+
+
+_ids = itertools.count()
 
 
 class Unsupported(Exception):
@@ -72,6 +76,13 @@ class BuiltinV:
 @dataclass(frozen=True)
 class OpaqueV:
     tag: str = ''
+
+
+@dataclass(frozen=True)
+class MapV:
+    """Functional dict: membership predicate and value function over key terms (insertion order is not modelled)."""
+    has: Callable[[Any], Any]
+    val: Callable[[Any], Any]
 
 
 @dataclass(frozen=True)
@@ -379,6 +390,9 @@ class PyEngine:
         if isinstance(op, (ast.Eq, ast.NotEq)):
             e = self.equal(st, a, b)
             return e if isinstance(op, ast.Eq) else z3.Not(e)
+        if isinstance(op, (ast.In, ast.NotIn)) and isinstance(b, TupV):
+            e = z3.Or(*[self.equal(st, a, x) for x in b.items]) if b.items else z3.BoolVal(False)
+            return e if isinstance(op, ast.In) else z3.Not(e)
         if isinstance(op, (ast.Lt, ast.LtE, ast.Gt, ast.GtE)):
             x, y = self.as_int(a), self.as_int(b)
             return {ast.Lt: x < y, ast.LtE: x <= y, ast.Gt: x > y, ast.GtE: x >= y}[type(op)]
@@ -492,6 +506,44 @@ class PyEngine:
 
     e_GeneratorExp = e_ListComp
 
+    def e_DictComp(self, n, st):
+        """{k(x): v(x) for x in seq if c(x)}: the entry for a key is produced by the LAST index whose element passes the filter
+        and has that key.  `last` is a fresh function: last(key) is such an index whenever one exists (definitional)."""
+        if len(n.generators) != 1:
+            raise Unsupported('dict comprehension shape')
+        g = n.generators[0]
+        outs = []
+        for s, it in self.ev(g.iter, st):
+            seq = self.to_seq(s, it)
+
+            def at(i, what, seq=seq, s=s):
+                s2 = s.clone()
+                s2.env = Env(s2.env)
+                self.bind_target(s2, g.target, seq.at(i))
+                if what == 'cond':
+                    c = z3.BoolVal(True)
+                    for cnd in g.ifs:
+                        (s3, v), = self.ev(cnd, s2)
+                        c = z3.And(c, self.truth(s3, v))
+                    return c
+                (s3, v), = self.ev(n.key if what == 'key' else n.value, s2)
+                return v
+            key0 = at(z3.Int('k!probe'), 'key')
+            if not is_z3(key0):
+                raise Unsupported('dict comprehension with structured keys')
+            ksort = key0.sort()
+            last = z3.Function(f'last_index!{next(_ids)}', ksort, Int)
+            k, t = z3.Int('k!dc'), z3.Const('t!dc', ksort)
+            inr = lambda i: z3.And(0 <= i, i < seq.len)
+            hit = lambda i, key: z3.And(inr(i), at(i, 'cond'), at(i, 'key') == key)
+            has = lambda key, hit=hit, k=k: z3.Exists([k], hit(k, key))
+            # definition of last: an index that hits, and no later index hits
+            s.facts.append(z3.ForAll([t], z3.Implies(z3.Exists([k], hit(k, t)),
+                                                     z3.And(hit(last(t), t), z3.ForAll([k], z3.Implies(k > last(t), z3.Not(hit(k, t))))))))
+            val = lambda key, last=last, at=at: at(last(key), 'val')
+            outs.append((s, MapV(has, val)))
+        return outs
+
     def _comprehension(self, n, st):
         if len(n.generators) != 1 or n.generators[0].ifs:
             raise Unsupported('comprehension shape')
@@ -543,6 +595,19 @@ class PyEngine:
 
     # ---- calls ---------------------------------------------------------------------------------------------
     def e_Call(self, n, st):
+        # dict.update(other) on a local functional dict: later entries win
+        if isinstance(n.func, ast.Attribute) and n.func.attr == 'update' and isinstance(n.func.value, ast.Name) and len(n.args) == 1 \
+                and st.env.lookup(n.func.value.id) is not None and isinstance(st.env.get(n.func.value.id), MapV):
+            res = []
+            for s, other in self.ev(n.args[0], st):
+                base = s.env.get(n.func.value.id)
+                if not isinstance(other, MapV):
+                    raise Unsupported('dict.update with a non-dict')
+                new = MapV(lambda q, a=base, b=other: z3.Or(a.has(q), b.has(q)),
+                           lambda q, a=base, b=other: self.ite(b.has(q), b.val(q), a.val(q)))
+                self.assign(s, n.func.value, new)
+                res.append((s, PYNONE))
+            return res
         outs = []
         for s, f in self.ev(n.func, st):
             star = [a for a in n.args if isinstance(a, ast.Starred)]
@@ -796,6 +861,11 @@ class PyEngine:
         elif isinstance(target, ast.Subscript):
             (s2, base), = self.ev(target.value, st)
             (s3, key), = self.ev(target.slice, st)
+            if isinstance(base, MapV) and isinstance(target.value, ast.Name) and is_z3(key):
+                new = MapV(lambda q, base=base, key=key: z3.Or(q == key, base.has(q)),
+                           lambda q, base=base, key=key, v=v: self.ite(q == key, v, base.val(q)))
+                self.assign(st, target.value, new)
+                return
             hook = getattr(self.cur, 'store_subscript', None)
             if not hook or not hook(self, st, base, key, v):
                 raise Unsupported('subscript store')
